@@ -286,9 +286,9 @@ func C12(tier Tier) int {
 	}
 	// (i) every string of length 0..L over {x, @, 0, a, A}
 	sigma := []byte{'x', '@', '0', 'a', 'A'}
-	L := 8
+	L := 9
 	if tier.Thorough() {
-		L = 10
+		L = 11
 	}
 	var rec func(e *Enum, s []byte, depth int)
 	rec = func(e *Enum, s []byte, depth int) {
